@@ -13,7 +13,7 @@ import shutil
 import tempfile
 from fractions import Fraction
 
-from ..common import cnat, cz, cbool, clist, copt, cstr, coq_eval
+from ..common import cnat, cz, cbool, clist, copt, cstr, coq_eval, CoqEvalError
 from ..impl import Impl
 
 GEN_FILES = ['PathCheck.v', 'ParseCalls.v']
@@ -24,6 +24,20 @@ STR_PRELUDE = 'From Coq Require Import String Ascii.'
 
 
 PER_CLASS = 1
+MODEL_ERRORS = []       # CoqEvalErrors met during the run; the first one is re-raised once every oracle has run
+
+
+def model_eval(ctx, tag, imports, exprs, prelude=''):
+    """coq_eval that cannot pre-empt the implementation-side search: on failure (the model or a generated file no longer
+    compiles) the error is recorded and None is returned; the callers then skip the model diff and still run the
+    property oracles on the implementation, so that a concrete failing input is reported when one exists."""
+    try:
+        return coq_eval(tag, imports, exprs, prelude=prelude)
+    except CoqEvalError as e:
+        MODEL_ERRORS.append(e)
+        ctx.notes.append('model evaluation failed (%s): correspondence skipped for this part, implementation-side oracles still run' % tag)
+        return None
+
 
 
 def report(ctx, site, what, **fields):
@@ -351,6 +365,7 @@ def norm_ids(id_kind, pairs):
 def run(ctx, scratch):
     rng = ctx.rng
     quick = ctx.tier == 'quick'
+    del MODEL_ERRORS[:]
     root = tempfile.mkdtemp(prefix='sknverif-c18-', dir='/var/tmp')
     try:
         with Impl(scratch) as impl:
@@ -386,6 +401,8 @@ def run(ctx, scratch):
         'Dataset attribute names are identifiers (no dot or slash)',
         'GraphML files without parallel edges or undirected self-loops',
     ]
+    if MODEL_ERRORS:        # every implementation-side oracle has run; now let the runner record the broken model evaluation
+        raise MODEL_ERRORS[0]
 
 
 # ---------------------------------------------------------------------------------------------
@@ -428,8 +445,11 @@ def part_paths(ctx, impl, rng, quick, root):
         cwd = os.path.join(root, c)
         exprs = ['is_within_with pc_function pc_norm_directory pc_norm_target %s %s %s' % (cstr(cwd), cstr(d), cstr(t))
                  for d, t in pairs]
-        model = coq_eval('c18path', ['Base.Util', 'Model.PathSafe', 'Gen.PathCheck'], exprs, prelude=STR_PRELUDE)
         r = impl.call('c18', 'within', dict(cwd=cwd, pairs=pairs), timeout=60)
+        model = model_eval(ctx, 'c18path', ['Base.Util', 'Model.PathSafe', 'Gen.PathCheck'], exprs, prelude=STR_PRELUDE)
+        has_model = model is not None
+        if not has_model:
+            model = [None] * len(pairs)
         got = r.get('ok') if 'ok' in r else [r] * len(pairs)
         for (d, t), mv, iv in zip(pairs, model, got):
             ctx.traces += 1
@@ -437,7 +457,7 @@ def part_paths(ctx, impl, rng, quick, root):
             spec = is_prefix(cd, ct)
             ctx.count('path:' + c, ('within', c, d, t), spec or (len(cd) > 0 and len(ct) > 0))
             case = dict(cwd='{ROOT}/' + c, directory=d, target=t)
-            if iv != mv:
+            if has_model and iv != mv:
                 report(ctx, 'is_within_directory', 'implementation differs from the model', case=case, expected=mv, observed=iv,
                               kind='correspondence')
             if iv is not True and iv is not False:
@@ -458,7 +478,7 @@ def part_extract(ctx, impl, rng, quick, root):
     n = 120 if quick else 1000
     inside = ['adjacency.npz', 'names.npy', 'sub/labels.npy', './meta.p', 'sub/../top.npy', 'a/b/c/deep.npz', 'sub/./x.npy',
               '{ROOT}/work/netset/foo/abs_inside.npy', 'foo/adjacency.npz', 'foobar/x']
-    outside = ['../foobar/x', '../foo2', '../foo.bak/y', '../../evil.npy', '../evil', 'sub/../../foobar/z', '{ROOT}/outside/abs_evil',
+    outside = ['../foo_backup/evil.txt', '../foox/y', '../foobar/x', '../foo2', '../foo.bak/y', '../../evil.npy', '../evil', 'sub/../../foobar/z', '{ROOT}/outside/abs_evil',
                '{ROOT}/work/netset/foobar/abs_sibling', '{ROOT}/work/netset/foo/../foobar/abs_dotdot', '../foo_x/deep/w',
                '../fooo', 'a/../../../netset/foobar/q']
     cases = []
@@ -492,10 +512,15 @@ def part_extract(ctx, impl, rng, quick, root):
         names = [m[0].replace('{ROOT}', sub) for m in mem]
         exprs.append('safe_extract_with pc_function pc_norm_directory pc_norm_target %s %s %s' %
                      (cstr(os.path.join(sub, cwd_rel)), cstr(path.replace('{ROOT}', sub)), clist(names, cstr)))
-    model = coq_eval('c18tar', ['Base.Util', 'Model.PathSafe', 'Gen.PathCheck'], exprs, prelude=STR_PRELUDE)
+    # the real extractions first (they need no model), then the model's verdicts
+    results = [impl.call('c18', 'extract', dict(root=sub, cwd=cwd_rel, path=path, members=[list(m) for m in mem], mode=mode), timeout=60)
+               for (mem, fam, cwd_rel, path, mode) in jobs]
+    model = model_eval(ctx, 'c18tar', ['Base.Util', 'Model.PathSafe', 'Gen.PathCheck'], exprs, prelude=STR_PRELUDE)
+    has_model = model is not None
+    if not has_model:
+        model = [None] * len(jobs)
     dataset_rel = 'work/netset/foo'
-    for (mem, fam, cwd_rel, path, mode), mv in zip(jobs, model):
-        r = impl.call('c18', 'extract', dict(root=sub, cwd=cwd_rel, path=path, members=[list(m) for m in mem], mode=mode), timeout=60)
+    for (mem, fam, cwd_rel, path, mode), mv, r in zip(jobs, model, results):
         ctx.traces += 1
         case = dict(cwd='{ROOT}/' + cwd_rel, path=path, members=[list(m) for m in mem], mode=mode)
         ctx.count('tar:' + fam, ('extract', cwd_rel, path, tuple(mem)), True)
@@ -514,7 +539,7 @@ def part_extract(ctx, impl, rng, quick, root):
                    and not is_prefix(p.split('/'), dataset_rel.split('/'))]
         # an exception that is not the check's own refusal comes from tarfile itself (e.g. 'sub/../x' when sub is absent)
         refused = (not accepted) and 'path traversal' in o['outcome'].get('msg', '')
-        if refused != (not mv):
+        if has_model and refused != (not mv):
             report(ctx, 'safe_extract', 'implementation differs from the model (accept/refuse)', case=case, expected=mv,
                           observed=o['outcome'], kind='correspondence')
         if escaped:
@@ -626,9 +651,9 @@ def part_edges(ctx, impl, rng, quick):
     model = [None] * len(cases)
     for kind in ('int', 'str'):
         idx = [i for i, c in enumerate(cases) if c[5] == kind and c[4] is not None]
-        vals = coq_eval('c18' + kind, ['Base.Util', 'Model.Parse', 'Gen.ParseCalls'], [cases[i][4] for i in idx],
-                        prelude=STR_PRELUDE)
-        for i, v in zip(idx, vals):
+        vals = model_eval(ctx, 'c18' + kind, ['Base.Util', 'Model.Parse', 'Gen.ParseCalls'], [cases[i][4] for i in idx],
+                          prelude=STR_PRELUDE)
+        for i, v in zip(idx, vals or []):
             model[i] = conv_view(v, den=cases[i][8], weighted=cases[i][7]['weighted'])
     # implementation, diff, oracle
     for i, (fam, site, fn, args, expr, kind, edges, fl, den, approx) in enumerate(cases):
@@ -744,7 +769,10 @@ def part_csv(ctx, impl, rng, quick, root):
     # scan_header: model vs implementation on the same files
     delims_lit = clist(['\t', ',', ';', ' '], ascii_code)
     exprs = ['scan_header 100 %s ["#"%%char; "%%"%%char] %s' % (delims_lit, cstr(t)) for t, _, _, _ in scan_cases]
-    model = coq_eval('c18scan', ['Base.Util', 'Model.Parse'], exprs, prelude=STR_PRELUDE)
+    model = model_eval(ctx, 'c18scan', ['Base.Util', 'Model.Parse'], exprs, prelude=STR_PRELUDE)
+    has_model = model is not None
+    if not has_model:
+        model = [None] * len(scan_cases)
     for (text, d, case, fam), mv in zip(scan_cases, model):
         r = impl.call('c18', 'scan_header', dict(root=sub, text=text), timeout=30)
         ctx.traces += 1
@@ -754,7 +782,7 @@ def part_csv(ctx, impl, rng, quick, root):
             hl, dd, cg, el = mv[1]
             exp = [hl, conv_char(dd), conv_char(cg), 'edge_list' if el else 'adjacency_list']
         if 'ok' in r:
-            if r['ok'] != exp:
+            if has_model and r['ok'] != exp:
                 report(ctx, 'scan_header', 'implementation differs from the model', case=dict(text=text), expected=exp,
                               observed=r['ok'], kind='correspondence', family=fam)
             if r['ok'][1] != d:
